@@ -253,10 +253,7 @@ int main(void)
 			MPT_STRUCT(message) msg = MPT_MESSAGE_INIT;
 			uint8_t *dat; size_t dlen; int isnull;
 			if (parse_res(drv_w[3]) || drv_parse_data(drv_w[2], &dat, &dlen, &isnull)) { puts("bad-op"); continue; }
-			/* separators handled by the quoting tokenizer (non-graphic, non-zero) are outside the modelled domain */
-			if (isnull || (dlen >= 2 && dat[0] == MPT_MESGTYPE(Command) && dat[1] && !(dat[1] > 0x20 && dat[1] < 0x7f))) {
-				free(dat); puts("bad-op"); continue;
-			}
+			if (isnull) { free(dat); puts("bad-op"); continue; }
 			msg.base = dat; msg.used = dlen;
 			ev.msg = &msg;
 			int ret = mpt_dispatch_hash(&disp, &ev);
